@@ -2067,11 +2067,13 @@ class Interp:
             return
         self.check_prompt(sess, r, "IDLE/DONE")
         if r.ok and box is not None and self.compare:
-            await self.after_mutation([box], "done")
             # Ending an IDLE flushes what the server knows; unlike NOOP it does not look at the folder.
             # A delivery younger than the idle poll period (1-5 s) need not have been found yet.
+            # (decided before the observer looks: its probe makes the server notice - and gives the message its UID)
             now = self.loop.time()
-            if any(m.uid is None and m.born is not None and now - m.born < 7.0 for m in box.msgs):
+            young = any(m.uid is None and m.born is not None and now - m.born < 7.0 for m in box.msgs)
+            await self.after_mutation([box], "done")
+            if young:
                 return
             self.check_delivery_announced(sess, ms, box, "DONE")
             self.check_flush(sess, ms, box, "IDLE")
